@@ -295,6 +295,56 @@ class Dmn(Family):
             steps.append(st("queue_state", [q]))
         for c in sorted(set(calls.values())):
             steps.append(st("read_call", [c]))
+        steps.append(st("panics"))
+        return [VL(cfg), VL(steps)]
+
+    # ---- adversarial field values (C05): well-typed messages whose 64-bit fields sit on the boundaries ----
+    B64 = [0, 1, 0xfff, 0x1000, 0x1001, 2**31, 2**32 - 1, 2**32, 2**48, 2**63 - 1, 2**63, 2**64 - 0x2000, 2**64 - 0x1000,
+           2**64 - 0xfff, 2**64 - 2, 2**64 - 1]
+    SMALL = [0, 0x1000, 0x2000, 0x10000, 2**32]
+
+    def adv_region(self, rng):
+        pick = lambda: rng.choice(self.B64) if rng.chance(1, 2) else rng.choice(self.SMALL)
+        size = rng.choice([0x1000, 0x2000, 1, 0xfff, 2**32, 2**48, 2**63, 2**64 - 1, 0x1000])
+        return [pick(), size, pick(), rng.choice([0, 0x1000, 0x800, 2**32, 2**63, 2**64 - 0x1000]), 1 + rng.below(3)]
+
+    def adv_history(self, rng):
+        nq, cfg, feat, masks = self.cfg(rng)
+        steps = [st("set_protocol_features", [W.PF_ALL])]
+        for f, sz in ((1, 0x8000), (2, 0x8000), (3, 0x8000), (4, 0x40000)):
+            steps.append(st("file_size", [f, sz]))
+        if rng.chance(1, 2):
+            # a sane table first, possibly at the top of the user address space
+            ua = rng.choice([0x7f0000000000, 2**64 - 0x3000, 2**64 - 0x2001])
+            steps.append(st("set_mem_table", [], b"", [[0x10000, 0x2000, ua, 0, 1]]))
+            if rng.chance(1, 2):
+                base = ua
+                d = rng.choice([0, 0x1000, 0x1ff0, 0x2000, 0x2ff0, 2**64 - ua - 16]) 
+                a = [(base + d) % 2**64 & ~15, (base + rng.choice([0x100, 0x2000, 0x3000])) % 2**64 & ~3, (base + 0x200) % 2**64 & ~1]
+                steps.append(st("set_vring_addr", [rng.below(nq), 0, a[0], a[1], a[2]]))
+        for _ in range(1 + rng.below(3)):
+            k = rng.below(8)
+            q = rng.choice([0, nq - 1, nq, 255, 256, 2**16, 2**32 - 1, 2**32, 2**64 - 1])
+            if k == 0:
+                n = rng.choice([1, 2, 2, 8, 33])
+                steps.append(st("set_mem_table", [], b"", [self.adv_region(rng) for _ in range(n)]))
+            elif k == 1:
+                steps.append(st("add_mem", self.adv_region(rng)))
+            elif k == 2:
+                steps.append(st("rem_mem", self.adv_region(rng)))
+            elif k == 3:
+                steps.append(st("set_log_base", [rng.choice(self.B64), rng.choice([0, 0x1000, 0x800, 2**63, 2**64 - 0x1000, 2**32]), 4]))
+            elif k == 4:
+                steps.append(st("set_vring_addr", [q, rng.choice([0, 1, 2, 2**31]), rng.choice(self.B64) & ~15, rng.choice(self.B64) & ~3, rng.choice(self.B64) & ~1]))
+            elif k == 5:
+                steps.append(st(rng.choice(["set_vring_num", "set_vring_base"]), [q, rng.choice([0, 1, 255, 256, 32768, 65535])]))
+            elif k == 6:
+                steps.append(st("set_features", [rng.choice(self.B64)]))
+            else:
+                steps.append(st(rng.choice(["set_vring_enable", "get_vring_base", "set_vring_kick", "set_vring_call"]), [q, rng.choice([0, 1, 2, 300])]))
+        steps += [st("panics"), st("regions"), st("backend_log")]
+        for qq in range(nq):
+            steps.append(st("queue_state", [qq]))
         return [VL(cfg), VL(steps)]
 
     def routing_case(self, rng, nq, masks, kind):
@@ -322,6 +372,7 @@ class Dmn(Family):
         n = 400 if tier == "quick" else 4000
         out = [(self.ring_history(rng, 4 + rng.below(14)), "ring-history") for _ in range(n)]
         out += [(self.mem_history(rng, 4 + rng.below(16)), "mem-history") for _ in range(n)]
+        out += [(self.adv_history(rng), "adversarial") for _ in range(n)]
         # routing: every mask set of the table x both vring kinds (complete), plus random mask sets
         for nq, sets in MASKSETS.items():
             for masks in sets:
